@@ -227,7 +227,7 @@ func c18GenStep(g *Rng, k c18Knobs, i int, tier string) c18Step {
 	}
 	if g.Bool(0.08) {
 		// benign: the certificate is dropped from KeyInfo in flight (KeyInfo is not signed content)
-		op := Pick(g, "keyinfo-none", "keyinfo-keyvalue", "keyinfo-add-cert", "keyinfo-x509ref", "keyinfo-x509ref")
+		op := Pick(g, "keyinfo-none", "keyinfo-keyvalue", "keyinfo-add-cert", "keyinfo-x509ref", "keyinfo-x509ref", "signature-object-rebinds-prefix", "signature-object-rebinds-prefix")
 		if op == "keyinfo-add-cert" {
 			st.Wire = append(st.Wire, c18Op{Op: op, Arg: "4", Val: Pick(g, "after", "before")})
 		} else if op == "keyinfo-x509ref" {
@@ -709,6 +709,12 @@ func c18Run(k c18Knobs, st *c18Step) *c18Model {
 			if m.sigDirect == 1 && m.signer >= 0 && !m.corruptDV {
 				m.corruptDV, eff = true, true
 			}
+		case "signature-object-rebinds-prefix":
+			// a ds:Object is added to the Signature element in flight (of a Signature's children the signature commits to SignedInfo and
+			// SignatureValue only); inside it an element binds the prefix the root uses to another namespace - for itself, as XML scoping has it
+			if m.sigDirect == 1 && m.signer >= 0 {
+				eff = true
+			}
 		case "keyinfo-none", "keyinfo-keyvalue", "keyinfo-x509ref":
 			if m.sigDirect == 1 && m.signer >= 0 && m.keyInfo != strings.TrimPrefix(op.Op, "keyinfo-") {
 				m.keyInfo, eff = strings.TrimPrefix(op.Op, "keyinfo-"), true
@@ -1041,6 +1047,14 @@ func c18Build(k c18Knobs, st *c18Step, m *c18Model, t0 time.Time) []byte {
 				rk.CreateElement(ki.Space + ":Modulus").SetText("AQAB")
 				rk.CreateElement(ki.Space + ":Exponent").SetText("AQAB")
 			}
+		case "signature-object-rebinds-prefix":
+			obj := sig.CreateElement(sig.Space + ":Object")
+			pfx := root.Space
+			if pfx == "" {
+				pfx = "samlp"
+			}
+			x := obj.CreateElement(pfx + ":x")
+			x.CreateAttr("xmlns:"+pfx, "urn:example:elsewhere")
 		case "keyinfo-x509ref":
 			// the certificate is identified by reference inside X509Data (XML-DSig 4.4.4), not embedded
 			if c := sig.FindElement("./KeyInfo/X509Data/X509Certificate"); c != nil {
